@@ -1306,6 +1306,215 @@ def vector_matrix_solves(rep, rng, n):
                                         "kind_of_case": "vm", "data": data})
 
 
+# ----------------------------------------------------------------------------- two views of ONE base inside one node
+# Dimension: a two-operand vector node (dot product, @, dot with A@·, element-wise +/- under dot / sum, linear
+# combinations) whose operands are DISTINCT 1-D views of the same vector / matrix — overlapping, strided, reversed,
+# different column ranges of one row, different row ranges of one column, views of views.  View handles derive their
+# names from the base and (part of) the index, so many distinct views share name AND size; the generator stratifies on
+# that.  Oracle: objective_value == the objective written out in NumPy on Solution.values, with element positions taken
+# from `ref_names` (NumPy indexing on string arrays — the harness's own bookkeeping), and == Expression.evaluate.
+
+VP_NLP_FORMS = ["L.dot(R)", "L@R", "R.dot(L)", "L.dot(A@R)", "(L-R).dot(L-R)", "(L+R).dot(L-R)", "L.dot(R*2)",
+                "(L-R).dot(R)"]
+VP_LP_FORMS = ["(L-R).sum()", "c@L-d@R", "c@(L+R*2)", "(L-R)@c"]
+VP_NLP_METHODS = ["auto", "SLSQP", "L-BFGS-B", "Nelder-Mead", "trust-constr", "BFGS", "auto", "SLSQP"]
+VP_LP_METHODS = ["auto", "highs", "linprog", "highs-ds"]
+VP_W = 10.0   # weight of the separable quadratic: keeps every NLP member strictly convex (|coef| * form <= 8 * el^2)
+
+
+def _tup(x):
+    return tuple(_tup(y) for y in x) if isinstance(x, (list, tuple)) else x
+
+
+def vp_views(base, rng):
+    """pool of 1-D view recipes over one base (vector or matrix)"""
+    out = []
+    if base[0] == "vec":
+        n = base[2]
+        for a in (None, 0, 1, 2, -2, -n):
+            for b in (None, n, n - 1, 2, 3, -1):
+                for st in (None, 2, 3, -1, -2):
+                    out.append(("slice", base, (a, b, st)))
+        for _ in range(12):   # views of views
+            v = rng.choice(out[:150])
+            out.append(("slice", v, rng.choice([(None, None, -1), (None, None, 2), (1, None, None), (None, -1, None),
+                                                (None, None, None)])))
+    else:
+        r, c = base[2], base[3]
+        sls = lambda m: [(None, None, None), (0, 2, None), (1, 3, None), (2, 4, None), (None, None, -1), (None, None, 2),  # noqa: E731
+                         (1, None, 2), (0, m - 1, None), (1, None, None), (m - 2, None, None)]
+        t = ("T", base)
+        for i in range(r):
+            out += [("row", base, i, s) for s in sls(c)]
+            out += [("col", t, s, i) for s in sls(c)[:5]]
+        for j in range(c):
+            out += [("col", base, s, j) for s in sls(r)]
+            out += [("row", t, j, s) for s in sls(r)[:5]]
+        if r == c:
+            out += [("diagonal", base), ("diagonal", t), ("diagonal", ("sub", base, (None, None, -1), (None, None, None)))]
+        for _ in range(12):
+            v = rng.choice(out)
+            out.append(("slice", v, rng.choice([(None, None, -1), (None, None, 2), (1, None, None), (None, -1, None)])))
+    return out
+
+
+def vp_pair(base, rng, want_same_name):
+    """two views of `base` with the same length (>= 2) and different element lists; when asked (and possible) the two
+    real handles also carry the same derived name"""
+    memo = {}
+    pool = []
+    for v in vp_views(base, rng):
+        try:
+            names = ref_names(v)
+            if names is None or names.ndim != 1 or len(names) < 2:
+                continue
+            h = build_handle(v, memo)
+        except Exception:  # noqa: BLE001  (an index outside the base: not a member of this family)
+            continue
+        pool.append((v, tuple(names), h.name))
+    rng.shuffle(pool)
+    fallback = None
+    for i, (v1, n1, h1) in enumerate(pool):
+        for v2, n2, h2 in pool[i + 1:]:
+            if len(n1) != len(n2) or n1 == n2:
+                continue
+            if (h1 == h2) == want_same_name:
+                return v1, v2, h1 == h2
+            fallback = fallback or (v1, v2, h1 == h2)
+    return fallback
+
+
+def vp_build(data):
+    """-> (problem, independent objective as a function of the values dict, scale function)"""
+    from optyx import Problem
+
+    base, Lr, Rr = _tup(data["base"]), _tup(data["L"]), _tup(data["R"])
+    memo = {}
+    bh = build_handle(base, memo)
+    L, R = build_handle(Lr, memo), build_handle(Rr, memo)
+    nl, nr = list(ref_names(Lr)), list(ref_names(Rr))
+    bn = ref_names(base)
+    form, coef, k0, sense = data["form"], data["coef"], data["k"], data["sense"]
+    A, c, d, T = np.array(data["A"]), np.array(data["c"]), np.array(data["d"]), data["T"]
+    node = {"L.dot(R)": lambda: L.dot(R), "L@R": lambda: L @ R, "R.dot(L)": lambda: R.dot(L),
+            "L.dot(A@R)": lambda: L.dot(A @ R), "(L-R).dot(L-R)": lambda: (L - R).dot(L - R),
+            "(L+R).dot(L-R)": lambda: (L + R).dot(L - R), "L.dot(R*2)": lambda: L.dot(R * 2),
+            "(L-R).dot(R)": lambda: (L - R).dot(R),
+            "(L-R).sum()": lambda: (L - R).sum(), "c@L-d@R": lambda: c @ L - d @ R,
+            "c@(L+R*2)": lambda: c @ (L + R * 2), "(L-R)@c": lambda: (L - R) @ c}[form]()
+    ref = {"L.dot(R)": lambda l, r: l @ r, "L@R": lambda l, r: l @ r, "R.dot(L)": lambda l, r: r @ l,
+           "L.dot(A@R)": lambda l, r: l @ (A @ r), "(L-R).dot(L-R)": lambda l, r: (l - r) @ (l - r),
+           "(L+R).dot(L-R)": lambda l, r: (l + r) @ (l - r), "L.dot(R*2)": lambda l, r: l @ (2 * r),
+           "(L-R).dot(R)": lambda l, r: (l - r) @ r,
+           "(L-R).sum()": lambda l, r: float(np.sum(l - r)), "c@L-d@R": lambda l, r: c @ l - d @ r,
+           "c@(L+R*2)": lambda l, r: c @ (l + 2 * r), "(L-R)@c": lambda l, r: (l - r) @ c}[form]
+    # the base's own elements, each once (index access through the real API, positions from the reference layout)
+    cells = [(j,) for j in range(bn.shape[0])] if bn.ndim == 1 else [(a, b) for a in range(bn.shape[0])
+                                                                     for b in range(bn.shape[1])]
+    obj = coef * node + k0
+    P = Problem()
+    if data["path"] == "nlp":
+        sgn = 1.0 if sense == "min" else -1.0
+        for ci, cell in enumerate(cells):
+            el = bh[cell[0]] if len(cell) == 1 else bh[cell[0], cell[1]]
+            obj = obj + (sgn * VP_W) * (el - T[ci]) ** 2
+    else:
+        sgn = 0.0
+        tot = None
+        for cell in cells:
+            el = bh[cell[0]] if len(cell) == 1 else bh[cell[0], cell[1]]
+            tot = el if tot is None else tot + el
+        P.subject_to(tot <= data["cap"])
+    P.minimize(obj) if sense == "min" else P.maximize(obj)
+    if data.get("constrained"):
+        e0 = bh[cells[0][0]] if len(cells[0]) == 1 else bh[cells[0][0], cells[0][1]]
+        e1 = bh[cells[-1][0]] if len(cells[-1]) == 1 else bh[cells[-1][0], cells[-1][1]]
+        P.subject_to(e0 + e1 >= 1.0)
+
+    def independent(vals):
+        l = np.array([vals[n] for n in nl], dtype=float)
+        r = np.array([vals[n] for n in nr], dtype=float)
+        q = sum((vals[str(bn[cell])] - T[ci]) ** 2 for ci, cell in enumerate(cells))
+        amag = max(1.0, float(np.abs(A).sum())) * max(1.0, float(np.abs(c).max()), float(np.abs(d).max()))
+        mag = 1.0 + abs(k0) + VP_W * abs(sgn) * q + 4.0 * abs(coef) * amag * (l @ l + r @ r + np.abs(l).sum() + np.abs(r).sum())
+        return float(coef * ref(l, r) + k0 + sgn * VP_W * q), float(mag)
+
+    return P, independent
+
+
+def vp_check(data):
+    """-> (failure dict | None, status tag)"""
+    try:
+        P, independent = vp_build(data)
+    except Exception as e:  # noqa: BLE001
+        return None, "build-raise:" + type(e).__name__
+    with warnings.catch_warnings():
+        warnings.simplefilter("ignore")
+        try:
+            sol = P.solve(method=data["method"])
+        except Exception as e:  # noqa: BLE001
+            return None, "raise:" + type(e).__name__     # a refusal to solve is not an inconsistent answer
+    if not sol.values or sol.objective_value is None:
+        return None, sol.status.name
+    names = [v.name for v in P.variables]
+    if list(sol.values) != names:
+        return {"what": "keys of values differ from the problem's variable names", "keys": list(sol.values),
+                "names": names}, sol.status.name
+    if not all(math.isfinite(v) for v in sol.values.values()) or not math.isfinite(sol.objective_value):
+        return None, sol.status.name + ":non-finite"
+    ind, mag = independent(sol.values)
+    want = float(P.objective.evaluate(sol.values))
+    if abs(ind - sol.objective_value) > 1e-8 * mag or abs(want - sol.objective_value) > 1e-8 * mag:
+        return {"what": "objective_value differs from the user's objective (two views of one base inside one vector "
+                        "node) evaluated at the reported values",
+                "objective_value": sol.objective_value, "independent_numpy": ind, "objective_at_values": want,
+                "status": sol.status.name, "values": dict(sol.values)}, sol.status.name
+    return None, sol.status.name
+
+
+def vp_case(rng, i, path):
+    if i % 2 == 0:
+        base = ("vec", "x", rng.randint(4, 6), -10.0, 10.0, "continuous")
+    else:
+        base = ("mat", "M", rng.randint(2, 4), rng.randint(2, 4), -10.0, 10.0, "continuous", False)
+    if path == "lp":
+        base = base[:3 + (base[0] == "mat")] + (rng.choice([0.0, -1.0]), rng.choice([2.0, 3.0])) + base[5 + (base[0] == "mat"):]
+    pair = vp_pair(base, rng, want_same_name=(i % 4 != 3))
+    if pair is None:
+        return None
+    Lr, Rr, same = pair
+    k = len(ref_names(Lr))
+    ncell = int(np.prod(ref_names(base).shape))
+    forms, methods = (VP_NLP_FORMS, VP_NLP_METHODS) if path == "nlp" else (VP_LP_FORMS, VP_LP_METHODS)
+    method = methods[(i // 2) % len(methods)]
+    data = {"path": path, "base": base, "L": Lr, "R": Rr, "same_name": same, "form": forms[i % len(forms)],
+            "sense": "min" if (i // len(forms)) % 2 == 0 else "max", "method": method,
+            "coef": rng.choice([1.0, -1.0, 0.5, 2.0, -2.0]), "k": rng.choice([0.0, 1.5, -3.0, 7.0]),
+            "A": [[rng.dy(-1, 1) / k for _ in range(k)] for _ in range(k)],
+            "c": [rng.choice([1.0, 2.0, -1.0, 0.5, 3.0, -2.0]) for _ in range(k)],
+            "d": [rng.choice([1.0, -2.0, 0.5, 4.0, -0.25]) for _ in range(k)],
+            "T": [rng.dy(-2, 2) for _ in range(ncell)], "cap": rng.choice([2.0, 3.5, 5.0]),
+            "constrained": path == "nlp" and method in ("SLSQP", "trust-constr") and rng.random() < 0.5}
+    return data
+
+
+def run_view_pairs(rep, rng, thorough):
+    for path, n in (("nlp", 320 if thorough else 96), ("lp", 96 if thorough else 24)):
+        for i in range(n):
+            data = vp_case(rng, i, path)
+            if data is None:
+                continue
+            bad, status = vp_check(data)
+            rep.evaluations += 1
+            tag = f"view-pair:{path}:{'same-name' if data['same_name'] else 'other-name'}:{status}"
+            rep.histogram[tag] = rep.histogram.get(tag, 0) + 1
+            if status == "OPTIMAL":
+                rep.nontrivial.add(hash(("vp", str(data))))
+            if bad is not None:
+                bad.update({"kind_of_case": "view-pair", "data": data})
+                rep.oracle_failures.append(bad)
+
+
 def run(ctx) -> core.Report:
     rng = ctx["rng"]
     thorough = ctx["tier"] == "thorough" or ctx["escalate"]
@@ -1326,6 +1535,7 @@ def run(ctx) -> core.Report:
     run_value_histories(rep, rng, thorough)
     run_param_identity(rep, rng, thorough)
     run_start_points(rep, rng, thorough)
+    run_view_pairs(rep, rng, thorough)
     base.run_real_solves(rep, rng, 1500 if thorough else 120, check_consistent)
     vector_matrix_solves(rep, rng, 300 if thorough else 30)
     for meta, P, text, info in metas[:4000:997]:
@@ -1352,6 +1562,10 @@ def search(ctx, rep):
             return r2.oracle_failures[0]
     # parameter objects vs. parameter names in solve / set / re-solve histories (cheap, judged on harness-side numbers)
     run_param_identity(r2, rng, True)
+    if r2.oracle_failures:
+        return r2.oracle_failures[0]
+    # two distinct views of one base inside one vector node (objective of real solves, NumPy reference)
+    run_view_pairs(r2, rng, True)
     if r2.oracle_failures:
         return r2.oracle_failures[0]
     metas = base.run_stub_table(r2, rng, True)
@@ -1433,6 +1647,10 @@ def replay(payload) -> bool:
     if kind == "lp-root":
         bad, status = lp_root_check(f["case"])
         print("status:", status, bad)
+        return bad is None
+    if kind == "view-pair":
+        bad, status = vp_check(f["data"])
+        print(status, bad)
         return bad is None
     if kind == "vm":
         status, fails = vm_case(f["data"])
